@@ -224,3 +224,41 @@ contract(IP + '_propagate_callable_skips',
 
 # index cross references (get_parameter_index / get_field_index / get_field): see c00_index.py
 from . import c00_index  # noqa
+
+
+# ---- third walk: fields follow their types, signals are analysed like callables -----------------------------------------
+FS = 'obj.fields'
+contract(IP + '_introspectable_pass3', params={'self': 'IntrospectablePass', 'obj': 'Node', 'stack': 'any'}, returns='bool',
+         ghost={'K': 'int'}, props=('C05',),
+         modifies=['*.introspectable', '*.emitter', 'LOGGER._warning_count'],
+         raises={'KeyError': 'True', 'IndexError': 'True'},
+         loops={
+             1: {'index': 'I1', 'modifies': ['*.introspectable'], 'var_types': {'field': 'Field'},
+                 'assume': ['implies(I1 < len(%s) and %s[I1].anonymous_node is None, %s[I1].type is not None)' % (FS, FS, FS)],
+                 'invariant': [
+                     "implies(0 <= K and K < I1 and %s[K].anonymous_node is None and %s[K].type is not None and "
+                     "shallow(%s[K].type) and not TI(self, %s[K].type), not %s[K].introspectable)" % (FS, FS, FS, FS, FS),
+                     "implies(0 <= K and K < I1 and %s[K].anonymous_node is not None and not %s[K].anonymous_node.introspectable, "
+                     "not %s[K].introspectable)" % (FS, FS, FS),
+                     "implies(0 <= K and K < len(%s) and not old(%s[K].introspectable), not %s[K].introspectable)" % (FS, FS, FS),
+                 ]},
+             2: {'index': 'I2', 'modifies': ['*.introspectable', '*.emitter', 'LOGGER._warning_count'],
+                 'var_types': {'sig': 'Signal'}, 'invariant': ['True']},
+         },
+         ensures={
+             'C05.pass3.skipped_nodes_are_not_walked': 'implies(old(obj.skip), result == False)',
+             'C05.pass3.walks_on': 'implies(not old(obj.skip), result == True)',
+             'C05.pass3.signals_are_analysed_as_callables':
+                 "all_calls('_introspectable_callable_analysis', 'isinstance(arg_obj, ast.Signal)')",
+             'C05.pass3.field_of_unbindable_type_is_closed':
+                 "implies(not old(obj.skip) and isinstance(obj, (ast.Record, ast.Union)) and 0 <= K and K < len(%s) and "
+                 "%s[K].anonymous_node is None and %s[K].type is not None and shallow(%s[K].type) and not TI(self, %s[K].type), "
+                 "not %s[K].introspectable)" % (FS, FS, FS, FS, FS, FS),
+             'C05.pass3.field_of_closed_anonymous_type_is_closed':
+                 "implies(not old(obj.skip) and isinstance(obj, (ast.Record, ast.Union)) and 0 <= K and K < len(%s) and "
+                 "%s[K].anonymous_node is not None and not %s[K].anonymous_node.introspectable, not %s[K].introspectable)"
+                 % (FS, FS, FS, FS),
+         },
+         note='the field clauses are stated for records and unions (for classes and interfaces the signal analysis that follows '
+              'may close further elements; the loop invariants hold for all four kinds); a field without an anonymous node has '
+              'a type (data invariant of ast.Field, assumed)')
